@@ -128,6 +128,14 @@ pub fn parse_bytes(v: &Value, key: &str) -> Result<Vec<u8>, String> {
     parse_seq(v, key)
 }
 
+/// Set for the quick tier: the (expensive) consumption-mode sweeps then run only on inputs up to
+/// a size limit chosen per call site; the thorough tier and replays run them everywhere.
+pub static MODES_QUICK: std::sync::atomic::AtomicBool = std::sync::atomic::AtomicBool::new(false);
+
+pub fn modes_wanted(size: usize, quick_limit: usize) -> bool {
+    !MODES_QUICK.load(std::sync::atomic::Ordering::Relaxed) || size <= quick_limit
+}
+
 /// Every way of consuming an iterator has to give the items a plain `next()` loop gives.
 /// `make` builds a fresh iterator, `key` turns an item into something comparable.  Covers
 /// collect, fold, for_each, count, last, nth(k) (fresh and after j next() calls) followed by
